@@ -373,6 +373,10 @@ class Filterbank(ABC):
         maximum dispersion delay.
         """
         chan_delays = self.header.get_dmdelays(dm)
+        # Count the delays from the earliest channel so that no index is negative;
+        # the first output sample is then input sample (start - min_delay).
+        min_delay = int(chan_delays.min())
+        chan_delays = chan_delays - min_delay
         max_delay = int(chan_delays.max())
         gulp = max(2 * max_delay, gulp)
         nsamps_read = (self.header.nsamples - start) if nsamps is None else nsamps
@@ -401,7 +405,7 @@ class Filterbank(ABC):
                     "nchans": 1,
                     "dm": dm,
                     "nsamples": tim_len,
-                    "tstart": self.header.mjd_after_nsamps(start),
+                    "tstart": self.header.mjd_after_nsamps(start - min_delay),
                 },
             ),
         )
